@@ -49,7 +49,7 @@ _RE_STATES = re.compile(r'(\d+) states generated, (\d+) distinct states found')
 _RE_DEPTH = re.compile(r'The depth of the complete state graph search is (\d+)')
 
 
-def run_tlc(module, cfg, wd, *, workers=NCPU, env=None, dump=None, simulate=None, depth=None,
+def run_tlc(module, cfg, wd, *, workers=NCPU, env=None, dump=None, simulate=None, depth=None, jvm=(),
             timeout=3600, extra=(), xss='512m', heap=None, coverage=False, deadlock=False,
             tlc_seed=None):
     """Run TLC on spec/<module>.tla with config text `cfg`.  Returns a dict."""
@@ -60,6 +60,7 @@ def run_tlc(module, cfg, wd, *, workers=NCPU, env=None, dump=None, simulate=None
     cmd = ['java', '-XX:+UseParallelGC', '-XX:ParallelGCThreads=%d' % max(2, min(8, workers)), '-Xss' + xss]
     if heap:
         cmd.append('-Xmx' + heap)
+    cmd += list(jvm)
     cmd += ['-cp', TLA_JAR, 'tlc2.TLC', '-workers', str(workers), '-metadir', meta,
             '-noGenerateSpecTE', '-config', cfgpath]
     if not deadlock:
@@ -129,7 +130,8 @@ def _validate_shard(args):
     e['CASES'] = path
     swd = os.path.join(wd, 'shard_%d' % idx)
     os.makedirs(swd, exist_ok=True)
-    res = run_tlc(module, cfg, swd, workers=1, env=e, timeout=timeout)
+    res = run_tlc(module, cfg, swd, workers=1, env=e, timeout=timeout, heap='3g',
+                  jvm=('-XX:TieredStopAtLevel=1', '-Xms512m'))
     os.remove(path)
     shutil.rmtree(swd, ignore_errors=True)
     return idx, res
@@ -138,7 +140,7 @@ def _validate_shard(args):
 BATCH_CFG = 'SPECIFICATION Spec\n'
 
 
-def validate(module, cases, wd, *, cfg=BATCH_CFG, shard_size=4000, env=None, timeout=3600, jobs=NCPU):
+def validate(module, cases, wd, *, cfg=BATCH_CFG, shard_size=4000, env=None, timeout=3600, jobs=8):
     """Batch validation (DESIGN 4.4): cases are JSON objects with a unique 'id'.  The trace spec steps
     through them one state per case and prints <<"V", id, {failing clauses}, {triggers}>> for every case
     that fails at least one clause, and <<"DONE", n>> at the end.  Returns (verdicts, stats)."""
@@ -209,6 +211,9 @@ class Report:
         self.tier = tier
         self.t0 = time.time()
         self.findings = [f for f in load_findings() if f['property'] == prop]
+        import glob
+        for old in glob.glob(os.path.join(REPLAY, prop + '_*.json')):
+            os.remove(old)
         self.violations = []          # (site, clause, case)
         self.attributed = {}          # finding id -> count
         self.witness_state = {}       # finding id -> still failing?
@@ -217,6 +222,13 @@ class Report:
                     'clause_failures': {}, 'out_of_domain': 0, 'model_checks': []}
         self.assumptions = []
         self.notes = []
+        self._pt = time.time()
+        self.cov['phase_s'] = {}
+
+    def phase(self, name):
+        now = time.time()
+        self.cov['phase_s'][name] = round(self.cov['phase_s'].get(name, 0) + now - self._pt, 1)
+        self._pt = now
 
     # --- bookkeeping helpers
     def add_model_check(self, name, res, extra=None):
@@ -232,8 +244,9 @@ class Report:
             d.update(extra)
         self.cov['model_checks'].append(d)
 
-    def add_validation(self, site, cases, verdicts, stats, casekey=lambda c: c):
-        """Fold the TLC verdicts of one batch into the report."""
+    def add_validation(self, site, cases, verdicts, stats, owned=None):
+        """Fold the TLC verdicts of one batch into the report.  `owned`: the clause names this property
+        is responsible for at this site (None = all); other clauses belong to another property's check."""
         self.cov['states'] += stats['states']
         self.cov['transitions'] += stats['transitions']
         self.cov['traces_validated_against_impl'] += len(cases)
@@ -247,6 +260,12 @@ class Report:
             ps['failing'] += 1
             case = byid.get(cid)
             for clause in v['clauses']:
+                if owned is not None and clause not in owned:
+                    self.cov.setdefault('clauses_left_to_other_properties', {})
+                    k2 = '%s/%s' % (site, clause)
+                    self.cov['clauses_left_to_other_properties'][k2] = \
+                        self.cov['clauses_left_to_other_properties'].get(k2, 0) + 1
+                    continue
                 key = '%s/%s' % (site, clause)
                 self.cov['clause_failures'][key] = self.cov['clause_failures'].get(key, 0) + 1
                 f = self._attribute(site, clause, v['triggers'], case)
